@@ -43,20 +43,25 @@ static const int NOUT = 8, NS = 8;
 // C helpers called by generated code (the call log is the observable "same calls with the same arguments")
 // ---------------------------------------------------------------------------------------------------------
 static std::vector<std::vector<uint32_t>> g_log;
+// miscompiled code may call a helper millions of times: the log is capped, the overflow is reported as a final entry
+// [99, n] that no well-defined program produces
+static const size_t kLogCap = 512;
+static uint32_t g_log_overflow = 0;
+static void log_call(std::vector<uint32_t> e) { if (g_log.size() < kLogCap) g_log.push_back(std::move(e)); else g_log_overflow++; }
 static uint32_t helper1(uint32_t a, uint32_t b) {
-  g_log.push_back({1, a, b});
+  log_call({1, a, b});
   return (3 * a + b + 7) & 0xFFFF;
 }
 static uint32_t helper3(uint64_t a, uint32_t b) {
-  g_log.push_back({3, uint32_t(a >> 32), uint32_t(a), b});
+  log_call({3, uint32_t(a >> 32), uint32_t(a), b});
   return uint32_t((a >> 32) + 3 * (a & 0xFFFFFFFFu) + b + 11) & 0xFFFF;
 }
 static uint64_t helper4(uint32_t a) {
-  g_log.push_back({4, a});
+  log_call({4, a});
   return (uint64_t((5 * a + 1) & 0xFFFF) << 32) | ((a + 9) & 0xFFFF);
 }
 static uint32_t helper2(uint32_t a1, uint32_t a2, uint32_t a3, uint32_t a4, uint32_t a5, uint32_t a6, uint32_t a7, uint32_t a8) {
-  g_log.push_back({2, a1, a2, a3, a4, a5, a6, a7, a8});
+  log_call({2, a1, a2, a3, a4, a5, a6, a7, a8});
   return (a1 + 2 * a2 + 3 * a3 + 4 * a4 + 5 * a5 + 6 * a6 + 7 * a7 + 8 * a8 + 1) & 0xFFFF;
 }
 
@@ -430,6 +435,7 @@ static void run_child(const Prog& p, int fd) {
         uint32_t* out = guard + 8;
         memset(out, 0, NOUT * 4);
         g_log.clear();
+        g_log_overflow = 0;
         uint32_t ret = fn(uint32_t(in[0].i()), uint32_t(in[1].i()), out);
         bool guards_ok = true;
         for (int i = 0; i < 8; i++) guards_ok &= guard[i] == 0xCDCDCDCD && guard[8 + NOUT + i] == 0xCDCDCDCD;
@@ -438,6 +444,7 @@ static void run_child(const Prog& p, int fd) {
         w.key("out").beginArr(); for (int i = 0; i < NOUT; i++) clampv(w, out[i]); w.endArr();
         w.key("log").beginArr();
         for (auto& c : g_log) { w.beginArr(); for (auto x : c) clampv(w, x); w.endArr(); }
+        if (g_log_overflow) { w.beginArr(); w.val(99); clampv(w, g_log_overflow); w.endArr(); }
         w.endArr();
         w.kv("guards", guards_ok);
         char b[64]; snprintf(b, sizeof b, "%08x", ret); raw += b;
